@@ -57,7 +57,8 @@ impl Drop for AssignedCredits {
             && let Some(port) = self.port_inner.upgrade()
         {
             let mut port = port.lock().unwrap();
-            port.credits += self.port;
+            // The remote endpoint may have provided more credits than were outstanding.
+            port.credits = port.credits.saturating_add(self.port);
         }
     }
 }
